@@ -44,14 +44,18 @@ def registry_of(mods):
         for c in getattr(m, "CONTRACTS", []):
             key = c.target.split("#")[0]
             if "#" in c.target:
-                continue            # block contracts are not callable
+                continue            # block / variant contracts are not callable
             reg[key] = c
+        for c in getattr(m, "LIB_CONTRACTS", []):   # assumed contracts of methods of abstract objects
+            reg[c.target] = c
     return reg
 
 
 def locate(target):
     """'mokapot.parsers.pin.create_chunks' -> (path, 'create_chunks')"""
     t = target.split("#")[0]
+    if t.startswith("lib:"):
+        raise Stale("library contract %s has no body" % t)
     parts = t.split(".")
     for k in range(len(parts) - 1, 0, -1):
         path = os.path.join(REPO, *parts[:k]) + ".py"
